@@ -158,3 +158,17 @@ def inequalities_rule(ctx, run):
        f"residual {rh}; d/dS = {dh}; value at S=M: {h_at}", fl_, "a higher running maximum cannot lower the lookback price")
 
 
+
+
+_check_bounds = check
+
+
+def check(ctx, run):  # noqa: F811
+    """R5: the inequalities above are facts about the formulas; they carry over to float64 results only if the formulas are evaluated in the
+    dtype of their inputs.  A helper that computes in float32 and reports float64 adds noise of 1e-8 times the strike to every price - enough
+    to put a call below its intrinsic value at double resolution."""
+    _check_bounds(ctx, run)
+    from ..precision import closed_form_precision_rule
+    run.require("C09.R5", 6)
+    closed_form_precision_rule(ctx, run, "C09.R5", ["ncdf", "npdf", "d1", "d2", "bs_european_price", "bs_european_binary_price", "bs_american_binary_price", "bs_lookback_price"],
+                               "the price is computed in the dtype of its inputs")
